@@ -97,6 +97,18 @@ pub fn build(specs: Vec<OSpec>, key: String) -> Prog {
     build_mix(specs, key, "VF")
 }
 
+/// Render-stage entry shapes by mix letter: (letter, WGSL, helper call, state builder, record name). The helper of every
+/// vertex / fragment entry takes the override constants, whatever the entry takes or returns.
+pub const ENTRY_SHAPES: [(char, &str, &str, &str, &str); 7] = [
+    ('V', "@vertex fn vs_main() -> @builtin(position) vec4<f32> {\n    return vec4<f32>({chain});\n}\n", "vs_main_entry(&ov)", "vertex_state", "vertex_entry"),
+    ('F', "@fragment fn fs_main() -> @location(0) vec4<f32> {\n    return vec4<f32>({chain});\n}\n", "fs_main_entry([None], &ov)", "fragment_state", "fragment_entry"),
+    ('N', "@fragment fn fs_none() {\n    if {chain} < -1.0e30 {\n        discard;\n    }\n}\n", "fs_none_entry([], &ov)", "fragment_state", "fragment_entry_no_result"),
+    ('D', "@fragment fn fs_depth() -> @builtin(frag_depth) f32 {\n    return {chain};\n}\n", "fs_depth_entry([], &ov)", "fragment_state", "fragment_entry_depth_only"),
+    ('S', "struct FsOut { @location(0) a: vec4<f32>, @builtin(frag_depth) d: f32, @location(1) b: vec4<f32> };\n@fragment fn fs_struct() -> FsOut {\n    var o: FsOut;\n    o.d = {chain};\n    return o;\n}\n", "fs_struct_entry([None, None], &ov)", "fragment_state", "fragment_entry_struct_result"),
+    ('I', "struct VsIn { @location(0) p: vec4<f32>, @location(1) q: vec2<f32> };\n@vertex fn vs_in(v: VsIn) -> @builtin(position) vec4<f32> {\n    return v.p * {chain};\n}\n", "vs_in_entry(wgpu::VertexStepMode::Instance, &ov)", "vertex_state", "vertex_entry_with_input"),
+    ('B', "@vertex fn vs_builtin(@builtin(vertex_index) vi: u32, @builtin(instance_index) ii: u32) -> @builtin(position) vec4<f32> {\n    return vec4<f32>(f32(vi + ii) * {chain});\n}\n", "vs_builtin_entry(&ov)", "vertex_state", "vertex_entry_builtin_params"),
+];
+
 /// The constants struct is owed whenever the shader declares overrides, whatever stages its entry points belong to.
 pub fn build_mix(specs: Vec<OSpec>, key: String, mix: &'static str) -> Prog {
     let mut src = String::from("override base_ov: f32 = 2.0;\n");
@@ -107,11 +119,10 @@ pub fn build_mix(specs: Vec<OSpec>, key: String, mix: &'static str) -> Prog {
     // no arithmetic between the values: naga folds constant expressions after override resolution and
     // rejects overflowing ones, which would be the test shader's fault
     let chain = uses.iter().fold("base_ov".to_string(), |acc, u| format!("max({acc}, {u})"));
-    if mix.contains('V') {
-        src.push_str(&format!("@vertex fn vs_main() -> @builtin(position) vec4<f32> {{\n    return vec4<f32>({chain});\n}}\n"));
-    }
-    if mix.contains('F') {
-        src.push_str(&format!("@fragment fn fs_main() -> @location(0) vec4<f32> {{\n    return vec4<f32>({chain});\n}}\n"));
+    for (letter, wgsl, _, _, _) in ENTRY_SHAPES {
+        if mix.contains(letter) {
+            src.push_str(&wgsl.replace("{chain}", &chain));
+        }
     }
     if mix.contains('C') {
         src.push_str(&format!("var<workgroup> sink: f32;\n@compute @workgroup_size(1) fn cs_main() {{\n    sink = {chain};\n}}\n"));
@@ -146,7 +157,7 @@ pub fn space(thorough: bool) -> Vec<Prog> {
     }
     // the stage mix of the module's entry points: compute only, none at all, one render stage, compute + fragment
     for (i, a) in s.iter().enumerate() {
-        for (mi, mix) in ["C", "", "V", "F", "CF", "VFC"].into_iter().enumerate() {
+        for (mi, mix) in ["C", "", "V", "F", "CF", "VFC", "N", "D", "S", "I", "B", "VN", "IFN", "BDC", "ISND"].into_iter().enumerate() {
             if !thorough && (i + mi) % 3 != 0 {
                 continue;
             }
@@ -306,11 +317,10 @@ pub fn probe_code(p: &Prog, fields: &[String]) -> String {
             fields_s.push(format!("{}: {e}", fname(si + 1, &spec.name)));
         }
         let mut body = format!("        let ov = OverrideConstants {{ {} }};\n        let direct = ov.constants();\n        let mut rec = format!(\"{{{{\\\"op\\\":\\\"overrides\\\",\\\"k\\\":{k},\\\"direct\\\":{{}}\", dump(&direct));\n", fields_s.join(", "));
-        if p.mix.contains('V') {
-            body.push_str("        let ve = vs_main_entry(&ov);\n        let vst = vertex_state(&module, &ve);\n        rec.push_str(&format!(\",\\\"vertex_entry\\\":{},\\\"vertex_state\\\":{}\", dump(&ve.constants), dump(vst.compilation_options.constants)));\n");
-        }
-        if p.mix.contains('F') {
-            body.push_str("        let fe = fs_main_entry([None], &ov);\n        let fst = fragment_state(&module, &fe);\n        rec.push_str(&format!(\",\\\"fragment_entry\\\":{},\\\"fragment_state\\\":{}\", dump(&fe.constants), dump(fst.compilation_options.constants)));\n");
+        for (letter, _, call, state, name) in ENTRY_SHAPES {
+            if p.mix.contains(letter) {
+                body.push_str(&format!("        {{\n            let e = {call};\n            let st = {state}(&module, &e);\n            rec.push_str(&format!(\",\\\"route:{name}\\\":{{}},\\\"route:{name}:{state}\\\":{{}}\", dump(&e.constants), dump(st.compilation_options.constants)));\n        }}\n"));
+            }
         }
         body.push_str("        rec.push('}');\n        out.push(rec);\n");
         s.push_str(&format!("    {{\n{body}    }}\n"));
@@ -340,7 +350,7 @@ pub fn run(tier: &str) -> i32 {
                 let v = check_model(p, &t);
                 (Some(t), v)
             }
-            other => (None, vec![format!("<generator not Ok: {}>", other.class())]),
+            other => (None, vec![format!("<generator not Ok>{}", other.class())]),
         },
     });
     let mut cases = vec![];
@@ -352,7 +362,10 @@ pub fn run(tier: &str) -> i32 {
         let t = match t {
             Some(t) => t,
             None => {
-                rep.filtered(&v[0]);
+                match v[0].strip_prefix("<generator not Ok>") {
+                    Some(class) => rep.generation_failed(p.key.clone(), class, &p.src, &cfg),
+                    None => rep.filtered(&v[0]),
+                }
                 continue;
             }
         };
@@ -409,14 +422,20 @@ pub fn run(tier: &str) -> i32 {
             if !same(&direct, &want) {
                 rep.violation(case.clone(), format!("constants() = {direct:?}, expected {want:?}"), detail(format!("{direct:?}")));
             }
-            for route in ["vertex_entry", "fragment_entry", "vertex_state", "fragment_state"] {
-                let want_route = p.mix.contains(if route.starts_with('v') { 'V' } else { 'F' });
+            let mut routes = vec![];
+            for (letter, _, _, state, name) in ENTRY_SHAPES {
+                if p.mix.contains(letter) {
+                    routes.push(format!("route:{name}"));
+                    routes.push(format!("route:{name}:{state}"));
+                }
+            }
+            for route in &routes {
+                let route = route.as_str();
                 if rec.get(route).is_none() {
-                    if want_route {
-                        rep.violation(case.clone(), format!("no record for {route}"), detail(String::new()));
-                    }
+                    rep.violation(case.clone(), format!("no record for {route}"), detail(String::new()));
                     continue;
                 }
+                rep.outcomes.insert(route.to_string());
                 let m = parse(&rec[route]);
                 if !same(&m, &direct) {
                     rep.violation(case.clone(), format!("{route} carries {m:?}, constants() gave {direct:?}"), detail(format!("{m:?}")));
